@@ -23,7 +23,10 @@ RULE = ("one-command programs for every spelling of command.md that has a prescr
         "balance, GS effects) x boundary values 0,1,63,64,127 and out-of-domain values (thorough: every 7-bit value, "
         "every 14-bit bend, tempo 10..300), on channels 1..16 at tick 0 or after a rest; every voice.md name through "
         "Voice(Name) and @Name; text payloads of 0..200 characters of 1..4 byte characters; SysEx with Roland checksum "
-        "braces; every documented alias group with an argument template. non-trivial = distinct case inside the "
+        "braces; every documented alias group with an argument template; every multi-message command (RPN/NRPN named and "
+        "direct, @/Voice with banks, GSScaleTuning) inside tracks of more than 20 events that are not in time order "
+        "(chords, Sub, TIME rewinds, other controllers at the same tick): its messages contiguous and in the prescribed "
+        "order at its tick. non-trivial = distinct case inside the "
         "documented domain whose decoded track holds at least one message")
 TRUSTED = ["MIDI / SMF / GM / GS / XG constants as written by hand in spec/GmSpec.v",
            "command.md / voice.md parsing of tools/gen_tables.py (gen_doc); alias groups = equal descriptions up to `(ex)`"]
@@ -406,6 +409,156 @@ def sysex_cases(ctx):
             ctx.oracle_fail("Roland checksum: address + data + checksum is not 0 modulo 128", src, h, "sum mod 128 = 0", input_text=src)
 
 
+# ------------------------------------------------------------------------------------------------
+# in context: the messages of one multi-message command stay together and in the prescribed order
+# when the command sits in a larger track whose event list is NOT already in time order (more than
+# 20 events, chords, Sub{}, TIME() rewinds, other controllers at the same tick)
+# ------------------------------------------------------------------------------------------------
+def decode_with_ticks(ctx, hexes):
+    """first track of every file -> list of (abs tick, message string) or None"""
+    cont = ctx.model(["container\t%s" % h for h in hexes], driver="core")
+    bodies = []
+    for c in cont:
+        f = c.split("\t")
+        bodies.append(f[5].split("/")[0] if (f[0] == "OK" and len(f) >= 6) else None)
+    dec = ctx.model(["decode_track\t%s" % b for b in bodies if b is not None], driver="core")
+    it = iter(dec)
+    res = []
+    for b in bodies:
+        if b is None:
+            res.append(None)
+            continue
+        d = next(it)
+        if d.startswith("DECODE-FAIL") or "\t" not in d:
+            res.append(None)
+            continue
+        items, ticks = d.split("\t")
+        msgs = [x.split(":", 1)[1] for x in items.split(" ")]
+        res.append(list(zip([int(t) for t in ticks.split(",")], msgs)))
+    return res
+
+
+def cmd_text(name, args, argsrc=None):
+    a = argsrc if argsrc is not None else ",".join(str(x) for x in args)
+    if name in ("@", "y", "p"):
+        return "%s%s" % (name, a)
+    return "%s(%s)" % (name, a)
+
+
+CHORDS = ["'ceg'", "'dfa'", "'egb'", "'ceg'", "'fa>c<'", "'gb>d<'"]
+
+
+def context_program(rng, ch, cluster_src):
+    """a track with well over 20 events whose event list is not in time order, the cluster somewhere in it"""
+    def chords(n):
+        return " ".join(rng.choice(CHORDS) for _ in range(n))
+    shape = rng.randrange(5)
+    head = "CH(%d) " % (ch + 1) if ch else ""
+    ln = rng.choice(["l4", "l8", "l4", "l16"])
+    if shape == 0:      # cluster first, chords after (note-offs are appended out of order)
+        body = "%s %s %s" % (cluster_src, ln, chords(rng.randrange(4, 8)))
+    elif shape == 1:    # chords, a Sub block, rewind to the start, cluster, more chords
+        body = "%s %s Sub{ %s } TIME(1:1:0) %s %s" % (ln, chords(3), chords(2), cluster_src, chords(rng.randrange(3, 6)))
+    elif shape == 2:    # cluster in the middle of the track
+        body = "%s %s %s %s Sub{ c d e f g a b } %s" % (ln, chords(rng.randrange(2, 5)), cluster_src, chords(3), chords(2))
+    elif shape == 3:    # play ahead, jump back before the end and put the cluster there, among sounding notes
+        body = "%s %s TIME(1:2:0) %s %s Sub{ %s } %s" % (ln, chords(6), cluster_src, chords(2), chords(2), chords(2))
+    else:               # cluster at the very end after a rewind into the middle
+        body = "%s %s Sub{ %s } %s TIME(1:3:0) %s" % (ln, chords(4), chords(3), chords(2), cluster_src)
+    return head + body
+
+
+def context_checks(ctx, names, prescs, corpus):
+    """cases: (src, ch, cluster [(name, args)], tick or None).  The cluster's prescribed messages (CmdSpec) must be
+    found, contiguous and in this order, among the controller / program / SysEx messages of its tick."""
+    rng = ctx.rng
+    multi = []
+    for n in names + ["@"]:
+        k = prescs.get(n, "NONE").split(",")[0]
+        if k in ("Rpn", "Nrpn"):
+            multi.append((n, lambda r: [r.choice([0, 1, 12, 64, 70, 127])]))
+        elif k in ("RpnDirect", "NrpnDirect"):
+            multi.append((n, lambda r: [r.choice([0, 1, 127]), r.choice([0, 2, 8, 33]), r.choice([0, 64, 127])]))
+        elif k == "Program":
+            multi.append((n, lambda r: [r.randrange(1, 129), r.randrange(0, 128), r.randrange(0, 128)]))
+        elif k == "GsScaleTuning":
+            multi.append((n, lambda r: [r.randrange(0, 128) for _ in range(12)]))
+    cases = list(corpus)
+    per = 3 if ctx.tier == "quick" else 60
+    singles = [("M", 10), ("EP", 90), ("V", 101), ("P", 33), ("REV", 40), ("CHO", 41), ("PS", 1), ("PT", 5), ("VAR", 7)]
+    for n, gen in multi:
+        for k in range(per):
+            ch = rng.randrange(16) if k % 2 else 0
+            cluster = [("y", [20, 77])]
+            if rng.random() < 0.7:
+                cluster.append((rng.choice(singles)[0], [rng.randrange(128)]))
+            cluster.append((n, gen(rng)))
+            if rng.random() < 0.3:
+                # a second multi-message command right behind it
+                n2, gen2 = rng.choice(multi)
+                cluster.append((n2, gen2(rng)))
+            if rng.random() < 0.7:
+                cluster.append((rng.choice(singles)[0], [rng.randrange(128)]))
+            cluster.append(("y", [21, 78]))
+            src = context_program(rng, ch, " ".join(cmd_text(a, b) for a, b in cluster))
+            cases.append((src, ch, cluster, None))
+    if not cases:
+        return
+    impl = ctx.impl(["compile_ev\t%s" % vlib.enc_text(c[0]) for c in cases], stall=20)
+    spec_lines, owner = [], []
+    for i, (src, ch, cluster, tick) in enumerate(cases):
+        for (n, a) in cluster:
+            spec_lines.append("spec\t%s\t0\t%d\t%d\t%s\t-" % (vlib.enc_text(n), ch, DEV, ints_field(a)))
+            owner.append(i)
+    spec = ctx.model(spec_lines)
+    want = {}
+    bad_spec = set()
+    for i, sp in zip(owner, spec):
+        if sp in ("NOSPEC", "NODOMAIN") or sp.startswith("BAD") or sp.startswith("UNKNOWN"):
+            bad_spec.add(i)
+            continue
+        want.setdefault(i, []).extend(x.split(":", 1)[1] for x in sp.split(" "))
+    ok_idx = [i for i, g in enumerate(impl) if len(g.split("\t")) >= 4]
+    dec = dict(zip(ok_idx, decode_with_ticks(ctx, [impl[i].split("\t")[0] for i in ok_idx])))
+    for i, (src, ch, cluster, tick) in enumerate(cases):
+        if i in bad_spec:
+            ctx.notes.append("context generator left the documented domain: %r" % src[:80]) if len(ctx.notes) < 10 else None
+            continue
+        d = dec.get(i)
+        if d is None:
+            ctx.oracle_fail("track with a command in context does not compile / decode", "compile_ev\t" + vlib.enc_text(src),
+                            impl[i][:60], "a decodable track", input_text=src)
+            continue
+        exp = want[i]
+        if tick is None:
+            ts = [t for t, m in d if m == exp[0]]
+            tick = ts[0] if ts else None
+        sel = [m for t, m in d if t == tick and (m.startswith("CC(%d," % ch) or m.startswith("Program(%d," % ch) or m.startswith("SysEx("))]
+        found = any(sel[k:k + len(exp)] == exp for k in range(0, len(sel) - len(exp) + 1))
+        ctx.count("context", src if len(d) > 20 else None)
+        ctx.dist["context_events_%s" % ("gt20" if len(d) > 20 else "le20")] = ctx.dist.get("context_events_%s" % ("gt20" if len(d) > 20 else "le20"), 0) + 1
+        if not found:
+            ctx.oracle_fail("in a larger track the messages of %s do not appear together in the prescribed order "
+                            "(select MSB, select LSB, data entry / bank MSB, bank LSB, program) at tick %s"
+                            % ("+".join(n for n, _ in cluster if n != "y"), tick),
+                            "compile_ev\t" + vlib.enc_text(src), " ".join(sel)[:600], " ".join(exp)[:600], input_text=src)
+        if i % 211 == 0:
+            ctx.sample({"context_source": src[:200], "tick": tick, "messages_at_tick": " ".join(sel)[:300], "prescribed": " ".join(exp)[:300]})
+
+
+def corpus_contexts():
+    out = []
+    p = os.path.join(vlib.VERIF, "corpus", "C15.jsonl")
+    if os.path.exists(p):
+        for line in open(p, encoding="utf-8"):
+            if line.strip():
+                o = json.loads(line)
+                if "context" in o:
+                    out.append((o["context"], o.get("ch", 0), [(c[0], c[1]) for c in o["cluster"]], o.get("tick")))
+    return out
+
+
+
 def corpus_alias_pairs():
     """corpus lines {"same": [src1, src2]}: two spellings that must give the same file"""
     out = []
@@ -440,7 +593,7 @@ def corpus_cases():
         for line in open(p, encoding="utf-8"):
             if line.strip():
                 o = json.loads(line)
-                if "same" in o:
+                if "same" in o or "context" in o:
                     continue
                 out.append(Case(o["name"], o.get("args", []), o.get("text"), o.get("ch", 0), o.get("rest", False),
                                 o.get("form", "paren"), "corpus", o.get("argsrc")))
@@ -479,6 +632,7 @@ def run(ctx):
     check_cases(ctx, cases)
     alias_checks(ctx, groups, prescs, voices)
     sysex_cases(ctx)
+    context_checks(ctx, names, prescs, corpus_contexts())
 
 
 def replay(ctx, obj):
